@@ -12,9 +12,17 @@
     contains no `<` and no `>` (D18 fixed);
   * `flat_roundtrip` — `tabs`/`lines`/`list` rows split back into the values when no value contains
     the separator (the hypothesis the property states).
-  Not claimed: two select-list columns with the same text share one JSON key (known finding D19).
-  Whole-document decoding over the four result paths is decided by the correspondence (bytes equal to the
-  model) and by Python's json/csv/html parsers against the `into list` run.
+  Whole rows and documents, for every table (any number of rows and columns, any values):
+  * `csv_record_roundtrip`, `csv_document_roundtrip` — the CSV output read by an RFC 4180 record reader is
+    exactly the list of rows (one record per row, also for the lone empty field);
+  * `json_literal_roundtrip` (a string literal in context), `json_object_roundtrip`,
+    `json_document_roundtrip` — header `[`, rows joined by `,`, footer `]` is read back as one array with
+    one object per row, each object being the key/value map the row was written from.
+  Not claimed: two select-list columns with the same text share one JSON key (known finding D19; the
+  theorems speak about `rowMap`, which keeps the last value of a repeated key).
+  That the four result paths emit header/rows/separators/footer in this shape, and the HTML document, are
+  decided by the correspondence (bytes equal to the model) and by Python's json/csv/html parsers against
+  the `into list` run.
 -/
 import Fsel.Model.Output
 
@@ -381,5 +389,326 @@ theorem flat_roundtrip (sep : Char) (vals : List Str) (hne : vals ≠ [])
       rw [hj, splitChar_go_append sep v (h v (by simp))]
       rw [ih (by simp) (fun x hx => h x (by simp [hx]))]
       simp
+
+-- ------------------------------------------------------------------ whole CSV records and documents
+
+/-- RFC 4180 record reader: fields separated by commas, closed by a line feed; `ff` is the fuel of the
+    field reader, the first `Nat` bounds the number of fields -/
+def readCsvRecord (ff : Nat) : Nat → Str → Option (List Str × Str)
+  | 0, _ => none
+  | n + 1, s =>
+    match readCsvField ff s with
+    | none => none
+    | some (v, ',' :: r) => (readCsvRecord ff n r).map (fun p => (v :: p.1, p.2))
+    | some (v, '\n' :: r) => some ([v], r)
+    | some _ => none
+
+theorem joinWith_cons2 (sep : Str) (x y : Str) (ys : List Str) :
+    joinWith sep (x :: y :: ys) = x ++ sep ++ joinWith sep (y :: ys) := rfl
+
+/-- a record of quoted/unquoted fields is read back as its values, whatever `single` is -/
+theorem csv_fields_roundtrip (single : Bool) (ff : Nat) (vals : List Str) (hne : vals ≠ []) (rest : Str)
+    (hf : ∀ v ∈ vals, v.length < ff) (n : Nat) (hn : vals.length ≤ n) :
+    readCsvRecord ff n (joinWith [','] (vals.map (csvField single)) ++ '\n' :: rest) = some (vals, rest) := by
+  induction vals generalizing n with
+  | nil => exact absurd rfl hne
+  | cons v vs ih =>
+    cases n with
+    | zero => simp at hn
+    | succ n =>
+      cases vs with
+      | nil =>
+        simp only [List.map_cons, List.map_nil, joinWith, readCsvRecord]
+        rw [csv_field_roundtrip single v ('\n' :: rest) (Or.inr ⟨'\n', rest, rfl, Or.inr (Or.inl rfl)⟩) ff (hf v (by simp))]
+        rfl
+      | cons w ws =>
+        simp only [List.map_cons, joinWith_cons2, List.append_assoc, List.cons_append, List.nil_append, readCsvRecord]
+        rw [csv_field_roundtrip single v _ (Or.inr ⟨',', _, rfl, Or.inl rfl⟩) ff (hf v (by simp))]
+        simp only
+        have := ih (by simp) (fun x hx => hf x (by simp [hx])) n (by simp at hn ⊢; omega)
+        simp only [List.map_cons] at this
+        rw [this]
+        rfl
+
+/-- **one CSV record carries exactly the row**: `csvRow` (the `csv` crate's writer) followed by the
+    RFC 4180 record reader is the identity on every non-empty row of arbitrary values -/
+theorem csv_record_roundtrip (vals : List Str) (hne : vals ≠ []) (rest : Str) (ff : Nat)
+    (hf : ∀ v ∈ vals, v.length < ff) :
+    readCsvRecord ff vals.length (csvRow vals ++ rest) = some (vals, rest) := by
+  unfold csvRow
+  rw [List.append_assoc]
+  exact csv_fields_roundtrip _ ff vals hne rest hf vals.length (Nat.le_refl _)
+
+/-- reader of a whole CSV document: records until the input ends (`w` = fields per record at most) -/
+def readCsvDoc (ff w : Nat) : Nat → Str → Option (List (List Str))
+  | _, [] => some []
+  | 0, _ :: _ => none
+  | n + 1, s =>
+    match readCsvRecord ff w s with
+    | none => none
+    | some (row, r) => (readCsvDoc ff w n r).map (row :: ·)
+
+theorem csvRow_ne_nil (vals : List Str) : csvRow vals ≠ [] := by
+  unfold csvRow; simp
+
+theorem readCsvRecord_mono (ff : Nat) (vals : List Str) (hne : vals ≠ []) (rest : Str)
+    (hf : ∀ v ∈ vals, v.length < ff) (w : Nat) (hw : vals.length ≤ w) :
+    readCsvRecord ff w (csvRow vals ++ rest) = some (vals, rest) := by
+  unfold csvRow
+  rw [List.append_assoc]
+  exact csv_fields_roundtrip _ ff vals hne rest hf w hw
+
+/-- **the CSV output carries exactly the result table**: one record per row, each decoding to the
+    row's values — for every table (any number of rows, every row non-empty, any values) -/
+theorem csv_document_roundtrip (rows : List (List Str)) (hne : ∀ r ∈ rows, r ≠ []) (ff w : Nat)
+    (hf : ∀ r ∈ rows, ∀ v ∈ r, v.length < ff) (hw : ∀ r ∈ rows, r.length ≤ w) :
+    readCsvDoc ff w rows.length (rows.flatMap csvRow) = some rows := by
+  induction rows with
+  | nil => rfl
+  | cons r rs ih =>
+    simp only [List.flatMap_cons, List.length_cons]
+    have hr := readCsvRecord_mono ff r (hne r (by simp)) (rs.flatMap csvRow) (hf r (by simp)) w (hw r (by simp))
+    cases hc : csvRow r ++ rs.flatMap csvRow with
+    | nil => exact absurd (List.append_eq_nil_iff.mp hc).1 (csvRow_ne_nil r)
+    | cons x xs =>
+      rw [hc] at hr
+      simp only [readCsvDoc, hr]
+      rw [ih (fun q hq => hne q (by simp [hq])) (fun q hq => hf q (by simp [hq])) (fun q hq => hw q (by simp [hq]))]
+      rfl
+
+/-- non-vacuity, with every special character: quotes, commas, CR, LF, the lone empty field -/
+example : readCsvDoc 20 3 3 ([[ofS "a\"b", ofS "c,d", ofS "e\r\nf"], [[]], [ofS "x", []]].flatMap csvRow) =
+    some [[ofS "a\"b", ofS "c,d", ofS "e\r\nf"], [[]], [ofS "x", []]] := by decide
+
+-- ------------------------------------------------------------------ whole JSON objects and arrays
+
+/-- JSON string reader in context: after the opening quote, up to the closing quote -/
+def readJsonStrTail : Nat → Str → Option (Str × Str)
+  | 0, _ => none
+  | _ + 1, [] => none
+  | f + 1, c :: r =>
+    if c == '"' then some ([], r)
+    else match readJsonChar (c :: r) with
+      | none => none
+      | some (d, r2) => (readJsonStrTail f r2).map (fun p => (d :: p.1, p.2))
+
+def readJsonString (f : Nat) : Str → Option (Str × Str)
+  | '"' :: r => readJsonStrTail f r
+  | _ => none
+
+theorem jsonEscChar_head (c : Char) : ∃ x xs, jsonEscChar c = x :: xs ∧ (x == '"') = false := by
+  unfold jsonEscChar
+  by_cases h1 : c = '"'
+  · subst h1; exact ⟨'\\', ['"'], rfl, by decide⟩
+  · simp only [beq_iff_eq, h1, if_false]
+    repeat' split
+    all_goals first
+      | exact ⟨'\\', _, rfl, by decide⟩
+      | exact ⟨c, [], rfl, by simp [h1]⟩
+
+theorem json_string_in_context (s rest : Str) (f : Nat) (hf : s.length < f) :
+    readJsonStrTail f (s.flatMap jsonEscChar ++ '"' :: rest) = some (s, rest) := by
+  induction s generalizing f with
+  | nil => cases f with
+    | zero => simp at hf
+    | succ f => simp [readJsonStrTail]
+  | cons c s ih =>
+    cases f with
+    | zero => simp at hf
+    | succ f =>
+      simp only [List.flatMap_cons, List.append_assoc]
+      obtain ⟨x, xs, hx, hq⟩ := jsonEscChar_head c
+      have hstep := read_escaped c (s.flatMap jsonEscChar ++ '"' :: rest)
+      rw [hx] at hstep ⊢
+      simp only [List.cons_append] at hstep ⊢
+      simp only [readJsonStrTail, hq, Bool.false_eq_true, if_false, hstep]
+      rw [ih f (by simp at hf; omega)]
+      rfl
+
+/-- **a JSON string literal is read back as the value, whatever follows it** -/
+theorem json_literal_roundtrip (s rest : Str) (f : Nat) (hf : s.length < f) :
+    readJsonString f (jsonEscape s ++ rest) = some (s, rest) := by
+  rw [jsonEscape_eq]
+  simp only [List.append_assoc, List.cons_append, List.nil_append, readJsonString]
+  exact json_string_in_context s rest f hf
+
+/-- reader of the members of an object after `{`: `"k":"v"` separated by commas, closed by `}` -/
+def readJsonMembers (f : Nat) : Nat → Str → Option (List (Str × Str) × Str)
+  | 0, _ => none
+  | n + 1, s =>
+    match readJsonString f s with
+    | some (k, ':' :: r) =>
+      (match readJsonString f r with
+       | some (v, ',' :: r2) => (readJsonMembers f n r2).map (fun p => ((k, v) :: p.1, p.2))
+       | some (v, '}' :: r2) => some ([(k, v)], r2)
+       | _ => none)
+    | _ => none
+
+def readJsonObject (f n : Nat) : Str → Option (List (Str × Str) × Str)
+  | '{' :: '}' :: r => some ([], r)
+  | '{' :: r => readJsonMembers f n r
+  | _ => none
+
+def jsonMember (kv : Str × Str) : Str := jsonEscape kv.1 ++ [':'] ++ jsonEscape kv.2
+
+theorem json_members_roundtrip (f : Nat) (m : List (Str × Str)) (hne : m ≠ []) (rest : Str)
+    (hf : ∀ kv ∈ m, kv.1.length < f ∧ kv.2.length < f) (n : Nat) (hn : m.length ≤ n) :
+    readJsonMembers f n (joinWith [','] (m.map jsonMember) ++ '}' :: rest) = some (m, rest) := by
+  induction m generalizing n with
+  | nil => exact absurd rfl hne
+  | cons kv ms ih =>
+    obtain ⟨k, v⟩ := kv
+    cases n with
+    | zero => simp at hn
+    | succ n =>
+      have hk := (hf (k, v) (by simp)).1
+      have hv := (hf (k, v) (by simp)).2
+      cases ms with
+      | nil =>
+        simp only [List.map_cons, List.map_nil, joinWith, jsonMember, List.append_assoc, List.cons_append, List.nil_append,
+          readJsonMembers]
+        rw [json_literal_roundtrip k _ f hk]
+        simp only
+        rw [json_literal_roundtrip v _ f hv]
+        rfl
+      | cons kv2 ms2 =>
+        simp only [List.map_cons, joinWith_cons2, jsonMember, List.append_assoc, List.cons_append, List.nil_append,
+          readJsonMembers]
+        rw [json_literal_roundtrip k _ f hk]
+        simp only
+        rw [json_literal_roundtrip v _ f hv]
+        simp only
+        have := ih (by simp) (fun x hx => hf x (by simp [hx])) n (by simp at hn ⊢; omega)
+        simp only [List.map_cons, jsonMember, List.append_assoc, List.cons_append, List.nil_append] at this
+        rw [this]
+        rfl
+
+theorem joinWith_head (sep : Str) (c : Char) (t : Str) (xs : List Str) :
+    ∃ t', joinWith sep ((c :: t) :: xs) = c :: t' := by
+  cases xs with
+  | nil => exact ⟨t, rfl⟩
+  | cons y ys => exact ⟨t ++ sep ++ joinWith sep (y :: ys), rfl⟩
+
+theorem jsonMember_head (k v : Str) : jsonMember (k, v) = '"' :: (k.flatMap jsonEscChar ++ ['"'] ++ [':'] ++ jsonEscape v) := by
+  simp [jsonMember, jsonEscape_eq]
+
+/-- the map a row is written from: `BTreeMap` insertion of the (column, value) pairs -/
+def rowMap (items : List (Str × Str)) : List (Str × Str) := items.foldl (fun acc (k, v) => btreeInsert acc k v) []
+
+theorem jsonRow_eq (items : List (Str × Str)) :
+    jsonRow items = ['{'] ++ joinWith [','] ((rowMap items).map jsonMember) ++ ['}'] := rfl
+
+/-- **one JSON object carries exactly the row's map**: for every row, the emitted object is read back as
+    the key/value map the row was written from (keys sorted, a repeated key keeps its last value — D19) -/
+theorem json_object_roundtrip (items : List (Str × Str)) (rest : Str) (f : Nat)
+    (hf : ∀ kv ∈ rowMap items, kv.1.length < f ∧ kv.2.length < f) :
+    readJsonObject f (rowMap items).length (jsonRow items ++ rest) = some (rowMap items, rest) := by
+  rw [jsonRow_eq]
+  cases hm : rowMap items with
+  | nil => simp [joinWith, readJsonObject]
+  | cons kv ms =>
+    rw [hm] at hf
+    have h := json_members_roundtrip f (kv :: ms) (by simp) rest hf (kv :: ms).length (Nat.le_refl _)
+    simp only [List.append_assoc, List.cons_append, List.nil_append]
+    -- the first member starts with a quote, so the `{}` case of the reader does not apply
+    obtain ⟨k, v⟩ := kv
+    have hq : ∃ t, joinWith [','] (((k, v) :: ms).map jsonMember) ++ '}' :: rest = '"' :: t := by
+      rw [List.map_cons, jsonMember_head]
+      obtain ⟨t', ht'⟩ := joinWith_head [','] '"' (k.flatMap jsonEscChar ++ ['"'] ++ [':'] ++ jsonEscape v) (ms.map jsonMember)
+      exact ⟨t' ++ '}' :: rest, by rw [ht']; rfl⟩
+    obtain ⟨t, ht⟩ := hq
+    rw [ht] at h ⊢
+    simp only [readJsonObject]
+    exact h
+
+/-- reader of a JSON array of objects: `[` obj (`,` obj)* `]` -/
+def readJsonRows (f w : Nat) : Nat → Str → Option (List (List (Str × Str)) × Str)
+  | 0, _ => none
+  | n + 1, s =>
+    match readJsonObject f w s with
+    | some (o, ',' :: r) => (readJsonRows f w n r).map (fun p => (o :: p.1, p.2))
+    | some (o, ']' :: r) => some ([o], r)
+    | _ => none
+
+def readJsonArray (f w n : Nat) : Str → Option (List (List (Str × Str)))
+  | '[' :: ']' :: [] => some []
+  | '[' :: r => match readJsonRows f w n r with
+    | some (rows, []) => some rows
+    | _ => none
+  | _ => none
+
+theorem readJsonObject_mono (items : List (Str × Str)) (rest : Str) (f w : Nat)
+    (hf : ∀ kv ∈ rowMap items, kv.1.length < f ∧ kv.2.length < f) (hw : (rowMap items).length ≤ w) :
+    readJsonObject f w (jsonRow items ++ rest) = some (rowMap items, rest) := by
+  rw [jsonRow_eq]
+  cases hm : rowMap items with
+  | nil => simp [joinWith, readJsonObject]
+  | cons kv ms =>
+    rw [hm] at hf hw
+    have h := json_members_roundtrip f (kv :: ms) (by simp) rest hf w hw
+    simp only [List.append_assoc, List.cons_append, List.nil_append]
+    obtain ⟨k, v⟩ := kv
+    have hq : ∃ t, joinWith [','] (((k, v) :: ms).map jsonMember) ++ '}' :: rest = '"' :: t := by
+      rw [List.map_cons, jsonMember_head]
+      obtain ⟨t', ht'⟩ := joinWith_head [','] '"' (k.flatMap jsonEscChar ++ ['"'] ++ [':'] ++ jsonEscape v) (ms.map jsonMember)
+      exact ⟨t' ++ '}' :: rest, by rw [ht']; rfl⟩
+    obtain ⟨t, ht⟩ := hq
+    rw [ht] at h ⊢
+    simp only [readJsonObject]
+    exact h
+
+theorem json_rows_roundtrip (f w : Nat) (rows : List (List (Str × Str))) (hne : rows ≠ [])
+    (hf : ∀ r ∈ rows, ∀ kv ∈ rowMap r, kv.1.length < f ∧ kv.2.length < f) (hw : ∀ r ∈ rows, (rowMap r).length ≤ w)
+    (n : Nat) (hn : rows.length ≤ n) :
+    readJsonRows f w n (joinWith [','] (rows.map jsonRow) ++ [']']) = some (rows.map rowMap, []) := by
+  induction rows generalizing n with
+  | nil => exact absurd rfl hne
+  | cons r rs ih =>
+    cases n with
+    | zero => simp at hn
+    | succ n =>
+      cases rs with
+      | nil =>
+        simp only [List.map_cons, List.map_nil, joinWith, readJsonRows]
+        rw [readJsonObject_mono r [']'] f w (hf r (by simp)) (hw r (by simp))]
+        rfl
+      | cons r2 rs2 =>
+        simp only [List.map_cons, joinWith_cons2, List.append_assoc, List.cons_append, List.nil_append, readJsonRows]
+        rw [readJsonObject_mono r _ f w (hf r (by simp)) (hw r (by simp))]
+        simp only
+        have := ih (by simp) (fun x hx => hf x (by simp [hx])) (fun x hx => hw x (by simp [hx])) n (by simp at hn ⊢; omega)
+        simp only [List.map_cons] at this
+        rw [this]
+        rfl
+
+/-- **the JSON output is one array with one object per row, carrying exactly the table**: header `[`,
+    rows joined by the separator `,`, footer `]` — read back as the list of the rows' maps, for every
+    table of arbitrary values -/
+theorem json_document_roundtrip (f w : Nat) (rows : List (List (Str × Str)))
+    (hf : ∀ r ∈ rows, ∀ kv ∈ rowMap r, kv.1.length < f ∧ kv.2.length < f) (hw : ∀ r ∈ rows, (rowMap r).length ≤ w) :
+    readJsonArray f w rows.length
+      (fmtHeader .Json ++ joinWith (fmtSeparator .Json) (rows.map (fmtRow .Json)) ++ fmtFooter .Json) = some (rows.map rowMap) := by
+  have hfr : fmtRow OutputFormat.Json = jsonRow := by funext x; rfl
+  simp only [fmtHeader, fmtSeparator, fmtFooter, hfr]
+  cases rows with
+  | nil => rfl
+  | cons r rs =>
+    have h := json_rows_roundtrip f w (r :: rs) (by simp) hf hw (r :: rs).length (Nat.le_refl _)
+    simp only [List.append_assoc, List.cons_append, List.nil_append]
+    -- the first row starts with `{`, so the `[]` case does not apply
+    have hq : ∃ t, joinWith [','] ((r :: rs).map jsonRow) ++ [']'] = '{' :: t := by
+      have hr : jsonRow r = '{' :: (joinWith [','] ((rowMap r).map jsonMember) ++ ['}']) := by rw [jsonRow_eq]; rfl
+      rw [List.map_cons, hr]
+      obtain ⟨t', ht'⟩ := joinWith_head [','] '{' (joinWith [','] ((rowMap r).map jsonMember) ++ ['}']) (rs.map jsonRow)
+      exact ⟨t' ++ [']'], by rw [ht']; rfl⟩
+    obtain ⟨t, ht⟩ := hq
+    rw [ht] at h ⊢
+    rw [show readJsonArray f w (r :: rs).length ('[' :: '{' :: t) =
+        (match readJsonRows f w (r :: rs).length ('{' :: t) with
+         | some (rows, []) => some rows
+         | _ => none) from rfl, h]
+
+/-- a row with distinct, sorted column names is its own map (so the object lists exactly the row) -/
+example : rowMap [(ofS "name", ofS "a\"b"), (ofS "size", ofS "1")] = [(ofS "name", ofS "a\"b"), (ofS "size", ofS "1")] := by decide
 
 end Fsel.C09
